@@ -194,6 +194,7 @@ TraceEntry ==
 \* verdict of an external parser (CPython zipfile, Info-ZIP unzip) on the bytes just judged
 TraceReferee == /\ IsEvent("Referee") /\ Check(w.fin => ev.verdict \in {"ok", "skip"}) /\ UNCHANGED <<w, res>>
 TraceDumped  == IsEvent("Dumped") /\ UNCHANGED <<w, res>>
+TraceSinkOps == IsEvent("SinkOps") /\ ~ev.drop_panic /\ UNCHANGED <<w, res>>   \* bookkeeping; a panicking Drop is never acceptable
 TraceLoad    == IsEvent("Load") /\ UNCHANGED <<w, res>>       \* a foreign archive made available as a source
 \* finish() and drop produced identical bytes for the same program (C01)
 TraceCompare == IsEvent("Compare") /\ ev.eq /\ UNCHANGED <<w, res>>
@@ -222,7 +223,7 @@ TraceNext ==
    \/ TraceReset \/ TraceNew \/ TraceNewAppend \/ TraceNoWriter \/ TraceSetComment \/ TraceStartFile \/ TraceStartFileExtra
    \/ TraceStartFileAligned \/ TraceWrite \/ TraceEndExtra
    \/ TraceEndLocalStartCentral \/ TraceAddDir \/ TraceAddSymlink \/ TraceRawCopy \/ TraceFlush
-   \/ TraceFinish \/ TraceDrop \/ TraceLayout \/ TraceOpen \/ TraceEntry \/ TraceEntryUnfinished \/ TraceCompare \/ TraceReferee \/ TraceDumped \/ TraceLoad
+   \/ TraceFinish \/ TraceDrop \/ TraceLayout \/ TraceOpen \/ TraceEntry \/ TraceEntryUnfinished \/ TraceCompare \/ TraceReferee \/ TraceDumped \/ TraceLoad \/ TraceSinkOps
 TraceSpec == TraceInit /\ [][TraceNext]_tvars
 TraceSpecDiag == TraceInit /\ [][TraceNext \/ TraceDiag]_tvars
 
